@@ -373,12 +373,19 @@ class Case:
         ex = self.ds.pick([0, 1, 2], "operand_blocks_beyond_max_deg", (0.6, 0.25, 0.15)) if self.op in ("multiply", "poisson_bracket", "power", "add_inplace") else 0
         if self.max_deg + ex > 5:
             ex = max(0, 5 - self.max_deg)
-        self.P = gen_list(self.ds, self.max_deg, self.cls, "P", extra=ex)
-        exq = ex
+        exp_ = exq = ex
+        if self.op in ("multiply", "power") and self.max_deg >= 1:
+            # operands may also be SHORTER than the truncation degree, each on its own (a linear polynomial in 2 blocks multiplied into degree 4)
+            exp_ = max(-self.max_deg, self.ds.pick([ex, -1, -2], "P.fewer_blocks", (0.7, 0.2, 0.1)))
+            if self.op == "multiply":
+                exq = max(-self.max_deg, self.ds.pick([ex, -1, -2, 0], "Q.fewer_blocks", (0.6, 0.15, 0.1, 0.15)))
+        self.P = gen_list(self.ds, self.max_deg, self.cls, "P", extra=exp_)
         if self.op == "add_inplace" and self.max_deg >= 1:
             exq = self.ds.pick([ex, 0, -1], "Q.blocks_relative_to_P")   # the added list may be shorter or longer than the target
         self.Q = gen_list(self.ds, self.max_deg, self.cls, "Q", extra=exq) if two else None
-        self.desc.update(max_deg=self.max_deg, operand_blocks=self.max_deg + ex + 1)
+        self.desc.update(max_deg=self.max_deg, operand_blocks=self.max_deg + exp_ + 1)
+        if two and exq != exp_:
+            self.desc.update(second_operand_blocks=self.max_deg + exq + 1)
 
     def _gen_multiply(self):
         self._lists()
